@@ -183,16 +183,17 @@ package eval
 //@   ensures* every.root.listed: result1 == nil ==> forall i int :: 0 <= i && i < len(c.roots) ==> (exists p int :: 0 <= p && p < len(result0) && result0[p] == c.roots[i])
 //@   ensures own.list: result1 == nil ==> fresh(result0) || len(result0) == 0
 //   -- first pass: no root of the prefix lists itself
-//@   loop 1 invariant no.self.dependency: ranged(1) == c.roots && (forall i int, j int :: 0 <= i && i <= rangeindex#1 && 0 <= j && j < len(ptr([]Root, rootDeps(c.roots[i]))) ==> rootName(ptr([]Root, rootDeps(c.roots[i]))[j]) != rootName(c.roots[i]))
-//@   loop 2 invariant scanning: ranged(1) == c.roots && 0 <= rangeindex#1 && rangeindex#1 < len(c.roots) && ranged(2) == ptr([]Root, rootDeps(c.roots[rangeindex#1])) && (forall j int :: 0 <= j && j <= rangeindex#2 ==> rootName(ranged(2)[j]) != rootName(c.roots[rangeindex#1]))
+//@   loop 1 invariant no.self.dependency: ranged(1) == c.roots && (forall i int, j int :: 0 <= i && i <= rangeidx(1) && 0 <= j && j < len(ptr([]Root, rootDeps(c.roots[i]))) ==> rootName(ptr([]Root, rootDeps(c.roots[i]))[j]) != rootName(c.roots[i]))
+//@   loop 2 invariant scanning: ranged(1) == c.roots && 0 <= rangeidx(1) && rangeidx(1) < len(c.roots) && ranged(2) == ptr([]Root, rootDeps(c.roots[rangeidx(1)])) && (forall j int :: 0 <= j && j <= rangeidx(2) ==> rootName(ranged(2)[j]) != rootName(c.roots[rangeidx(1)]))
 //   -- last pass: the merged list holds every root visited so far (and every element of the current root's list visited so far)
-//@   loop 8 invariant listed: ranged(8) == c.roots && (sorted#2.arr == 0 || sinceEntry(sorted#2)) && (forall i int :: 0 <= i && i <= rangeindex#3 ==> (exists p int :: 0 <= p && p < len(sorted#2) && sorted#2[p] == c.roots[i]))
-//@   loop 9 invariant listed: ranged(8) == c.roots && 0 <= rangeindex#3 && rangeindex#3 < len(c.roots) && (sorted#2.arr == 0 || sinceEntry(sorted#2)) && sinceEntry(ranged(9)) && ranged(9).arr != sorted#2.arr && len(ranged(9)) >= 1 && ranged(9)[len(ranged(9)) - 1] == c.roots[rangeindex#3] && len(sorted#2) >= prev(8, len(sorted#2)) && (forall q int :: 0 <= q && q < prev(8, len(sorted#2)) ==> sorted#2[q] == prev(8, sorted#2[q])) && (forall k int :: 0 <= k && k <= rangeindex#6 ==> (exists p int :: 0 <= p && p < len(sorted#2) && sorted#2[p] == ranged(9)[k])) && (rangeindex#6 >= len(ranged(9)) - 1 ==> (exists p int :: 0 <= p && p < len(sorted#2) && sorted#2[p] == c.roots[rangeindex#3]))
-//@   loop 10 invariant not.found.yet: !found && ranged(10) == sorted#2 && (forall q int :: 0 <= q && q <= rangeindex#7 ==> rootName(ranged(10)[q]) != rootName(ranged(9)[rangeindex#6]))
+//@   loop 8 invariant listed: ranged(8) == c.roots && (sorted#2.arr == 0 || sinceEntry(sorted#2)) && (forall i int :: 0 <= i && i <= rangeidx(8) ==> (exists p int :: 0 <= p && p < len(sorted#2) && sorted#2[p] == c.roots[i]))
+//@   loop 9 invariant listed: ranged(8) == c.roots && 0 <= rangeidx(8) && rangeidx(8) < len(c.roots) && (sorted#2.arr == 0 || sinceEntry(sorted#2)) && sinceEntry(ranged(9)) && ranged(9).arr != sorted#2.arr && len(ranged(9)) >= 1 && ranged(9)[len(ranged(9)) - 1] == c.roots[rangeidx(8)] && len(sorted#2) >= prev(8, len(sorted#2)) && (forall q int :: 0 <= q && q < prev(8, len(sorted#2)) ==> sorted#2[q] == prev(8, sorted#2[q])) && (forall k int :: 0 <= k && k <= rangeidx(9) ==> (exists p int :: 0 <= p && p < len(sorted#2) && sorted#2[p] == ranged(9)[k])) && (rangeidx(9) >= len(ranged(9)) - 1 ==> (exists p int :: 0 <= p && p < len(sorted#2) && sorted#2[p] == c.roots[rangeidx(8)]))
+//@   loop 10 invariant not.found.yet: !found && ranged(10) == sorted#2 && (forall q int :: 0 <= q && q <= rangeidx(10) ==> rootName(ranged(10)[q]) != rootName(ranged(9)[rangeidx(9)]))
 //@   modifies nothing
 
 //@ func RunDSL
 //@   property C11
+//@   locals roots:[]eval.Root err:error executed:int recursed:int start:int root:eval.Root root#2:eval.Root root#3:eval.Root root#4:eval.Root
 //@   requires Context != nil && allocated(Context) && phase == 0 && !valFailed
 //   -- environment (see Roots): roots are identified by their name; their dependency lists exist
 //@   requires names.identify.roots: namesIdentify()
@@ -204,10 +205,10 @@ package eval
 //@   ensures* finalized.only.if.valid: phase == 4 ==> !valFailed
 //@   ensures* all.registered.executed: result == nil ==> forall i int :: 0 <= i && i < len(Context.roots) ==> select(dslDone, Context.roots[i])
 //@   loop 1 invariant outer: allocated(roots) && Context.roots.arr != roots.arr && 0 <= executed && executed <= len(roots) && phase <= 1 && Context != nil && len(roots) > 0 && fresh(roots) && (forall j int :: 0 <= j && j < executed ==> select(dslDone, roots[j])) && 0 <= n0 && (forall i int :: 0 <= i && i < n0 ==> (exists p int :: 0 <= p && p < len(roots) && roots[p] == old(Context.roots[i]))) && rootsOwn && allocated(Context) && !valFailed
-//@   loop 2 invariant inner: allocated(roots) && Context.roots.arr != roots.arr && 0 - 1 <= rangeindex && 0 <= start && start <= len(roots) && executed == len(roots) && phase <= 1 && Context != nil && fresh(roots) && (forall j int :: 0 <= j && j < start + rangeindex + 1 ==> select(dslDone, roots[j])) && 0 <= n0 && (forall i int :: 0 <= i && i < n0 ==> (exists p int :: 0 <= p && p < len(roots) && roots[p] == old(Context.roots[i]))) && rootsOwn && allocated(Context) && !valFailed
-//@   loop 3 invariant prepare: allocated(roots) && Context.roots.arr != roots.arr && 0 - 1 <= rangeindex#2 && phase <= 2 && Context != nil && fresh(roots) && (phase < 2 ==> Context.Errors == nil) && (forall j int :: 0 <= j && j < len(roots) ==> select(dslDone, roots[j])) && (forall j int :: 0 <= j && j <= rangeindex#2 ==> select(prepDone, roots[j])) && 0 <= n0 && (forall i int :: 0 <= i && i < n0 ==> (exists p int :: 0 <= p && p < len(roots) && roots[p] == old(Context.roots[i]))) && rootsOwn && allocated(Context) && !valFailed
-//@   loop 4 invariant validate: allocated(roots) && Context.roots.arr != roots.arr && 0 - 1 <= rangeindex#3 && phase <= 3 && Context != nil && fresh(roots) && (forall j int :: 0 <= j && j < len(roots) ==> select(dslDone, roots[j])) && (forall j int :: 0 <= j && j < len(roots) ==> select(prepDone, roots[j])) && (forall j int :: 0 <= j && j <= rangeindex#3 ==> select(valDone, roots[j])) && 0 <= n0 && (forall i int :: 0 <= i && i < n0 ==> (exists p int :: 0 <= p && p < len(roots) && roots[p] == old(Context.roots[i]))) && rootsOwn && allocated(Context) && (valFailed ==> Context.Errors != nil)
-//@   loop 5 invariant finalize: allocated(roots) && Context.roots.arr != roots.arr && 0 - 1 <= rangeindex#4 && Context != nil && fresh(roots) && (phase < 4 ==> Context.Errors == nil) && (forall j int :: 0 <= j && j < len(roots) ==> select(dslDone, roots[j])) && (forall j int :: 0 <= j && j < len(roots) ==> select(prepDone, roots[j])) && (forall j int :: 0 <= j && j < len(roots) ==> select(valDone, roots[j])) && (forall j int :: 0 <= j && j <= rangeindex#4 ==> select(finDone, roots[j])) && 0 <= n0 && (forall i int :: 0 <= i && i < n0 ==> (exists p int :: 0 <= p && p < len(roots) && roots[p] == old(Context.roots[i]))) && rootsOwn && allocated(Context) && !valFailed && phase <= 4
+//@   loop 2 invariant inner: allocated(roots) && Context.roots.arr != roots.arr && 0 - 1 <= rangeidx(2) && 0 <= start && start <= len(roots) && executed == len(roots) && phase <= 1 && Context != nil && fresh(roots) && (forall j int :: 0 <= j && j < start + rangeidx(2) + 1 ==> select(dslDone, roots[j])) && 0 <= n0 && (forall i int :: 0 <= i && i < n0 ==> (exists p int :: 0 <= p && p < len(roots) && roots[p] == old(Context.roots[i]))) && rootsOwn && allocated(Context) && !valFailed
+//@   loop 3 invariant prepare: allocated(roots) && Context.roots.arr != roots.arr && 0 - 1 <= rangeidx(3) && phase <= 2 && Context != nil && fresh(roots) && (phase < 2 ==> Context.Errors == nil) && (forall j int :: 0 <= j && j < len(roots) ==> select(dslDone, roots[j])) && (forall j int :: 0 <= j && j <= rangeidx(3) ==> select(prepDone, roots[j])) && 0 <= n0 && (forall i int :: 0 <= i && i < n0 ==> (exists p int :: 0 <= p && p < len(roots) && roots[p] == old(Context.roots[i]))) && rootsOwn && allocated(Context) && !valFailed
+//@   loop 4 invariant validate: allocated(roots) && Context.roots.arr != roots.arr && 0 - 1 <= rangeidx(4) && phase <= 3 && Context != nil && fresh(roots) && (forall j int :: 0 <= j && j < len(roots) ==> select(dslDone, roots[j])) && (forall j int :: 0 <= j && j < len(roots) ==> select(prepDone, roots[j])) && (forall j int :: 0 <= j && j <= rangeidx(4) ==> select(valDone, roots[j])) && 0 <= n0 && (forall i int :: 0 <= i && i < n0 ==> (exists p int :: 0 <= p && p < len(roots) && roots[p] == old(Context.roots[i]))) && rootsOwn && allocated(Context) && (valFailed ==> Context.Errors != nil)
+//@   loop 5 invariant finalize: allocated(roots) && Context.roots.arr != roots.arr && 0 - 1 <= rangeidx(5) && Context != nil && fresh(roots) && (phase < 4 ==> Context.Errors == nil) && (forall j int :: 0 <= j && j < len(roots) ==> select(dslDone, roots[j])) && (forall j int :: 0 <= j && j < len(roots) ==> select(prepDone, roots[j])) && (forall j int :: 0 <= j && j < len(roots) ==> select(valDone, roots[j])) && (forall j int :: 0 <= j && j <= rangeidx(5) ==> select(finDone, roots[j])) && 0 <= n0 && (forall i int :: 0 <= i && i < n0 ==> (exists p int :: 0 <= p && p < len(roots) && roots[p] == old(Context.roots[i]))) && rootsOwn && allocated(Context) && !valFailed && phase <= 4
 
 // runSet: "execute every DSL function": every expression of the set that has a DSL is handed to Execute,
 // whatever the size of the set (the guard against runaway generation cannot stop a finite set early).
@@ -226,4 +227,4 @@ package eval
 //@       modifies all
 //@   ensures* every.expression.executed: forall i int :: 0 <= i && i < len(set) && set[i] != nil && implements(set[i], Source) ==> select(dslRan, set[i])
 //@   loop 1 invariant progress: 0 <= executed && executed <= len(set) && (forall i int :: 0 <= i && i < executed && set[i] != nil && implements(set[i], Source) ==> select(dslRan, set[i]))
-//@   loop 2 invariant progress: 0 <= executed && executed <= len(set) && len(ranged(2)) <= len(set) && executed == len(set) - len(ranged(2)) + rangeindex + 1 && ranged(2).arr == set.arr && ranged(2).off == set.off + (len(set) - len(ranged(2))) && (forall i int :: 0 <= i && i < executed && set[i] != nil && implements(set[i], Source) ==> select(dslRan, set[i]))
+//@   loop 2 invariant progress: 0 <= executed && executed <= len(set) && len(ranged(2)) <= len(set) && executed == len(set) - len(ranged(2)) + rangeidx(2) + 1 && ranged(2).arr == set.arr && ranged(2).off == set.off + (len(set) - len(ranged(2))) && (forall i int :: 0 <= i && i < executed && set[i] != nil && implements(set[i], Source) ==> select(dslRan, set[i]))
